@@ -555,6 +555,24 @@ func (s SchemesData) Append(d *SchemeData) SchemesData {
 	return append(s, d)
 }
 
+// DedupeByType returns the schemes with at most one scheme per type (Basic,
+// APIKey, JWT, OAuth2). The generated Auther interface, endpoint constructors
+// and example auth functions define one function per scheme type - the scheme
+// name is given to that function at runtime - so they must iterate over the
+// scheme types rather than over the schemes.
+func (s SchemesData) DedupeByType() SchemesData {
+	var res SchemesData
+	seen := make(map[string]struct{}, len(s))
+	for _, se := range s {
+		if _, ok := seen[se.Type]; ok {
+			continue
+		}
+		seen[se.Type] = struct{}{}
+		res = append(res, se)
+	}
+	return res
+}
+
 // analyze creates the data necessary to render the code of the given service.
 // It records the user types needed by the service definition in userTypes.
 func (d ServicesData) analyze(service *expr.ServiceExpr) *Data {
